@@ -207,6 +207,36 @@ def runLine (line : String) : String :=
           showReport names (run cfg PStateDriver.fuelDefault (entry env rule) (PState.new input rc.limit rc.detail)))
       | _, _ => "bad-op"
     | _, _ => "bad-op"
+  | "E" :: ex :: pass :: rest =>
+    -- semantic comparison of a grammar with its image under a pass, on the reference denotation
+    match sexpParse rest with
+    | some (.list rs :: .atom rule :: ins) =>
+      match rs.mapM ruleOf, ins.mapM (fun (x : SExp) => match x with | .atom h => strOf h | _ => none) with
+      | some rules, some inputs =>
+        let extras := ex = "1"
+        let each (f : Rule → Option Rule) : Option (List Rule) := rules.mapM f
+        let image : Option (List Rule) :=
+          match pass with
+          | "rotate" => each (fun r => some (rotate r))
+          | "skip" => each (fun r => some (G.skip rules r))
+          | "unroll" => each (unroll extras)
+          | "concat" => each (fun r => some (concatenate r))
+          | "factor" => each (fun r => some (factor r))
+          | "list" => each (fun r => some (list r))
+          | "optimize" => (optimize extras rules).map Ref.ofOptimizedRules
+          | "optnolist" => (optimizeWith extras false rules).map Ref.ofOptimizedRules
+          | _ => none
+        match image with
+        | none => "panic"
+        | some rules' =>
+          let names := rules.map (·.name)
+          let diffs := (List.range inputs.length).filter fun i =>
+            let input := inputs[i]!
+            showRef names (Ref.meaning rules extras noUni 100000 rule input) !=
+              showRef names (Ref.meaning rules' extras noUni 100000 rule input)
+          if diffs.isEmpty then "same" else "diff " ++ " ".intercalate (diffs.map toString)
+      | _, _ => "bad-op"
+    | _ => "bad-op"
   | "D" :: ex :: rest =>
     match sexpParse rest with
     | some (.list rs :: .atom rule :: ins) =>
